@@ -18,11 +18,16 @@ THEOREMS = [
     ("Anytree.Props.C05.pre_decorate", "full"),
     ("Anytree.Props.C05.post_decorate", "full"),
     ("Anytree.Props.C05.levels_decorate", "full"),
+    ("Anytree.Props.C05b.pieces_flatten", "full"),
+    ("Anytree.Props.C05b.exhausted_stays", "full"),
+    ("Anytree.Props.C05b.preIter_pieces", "full"),
 ]
+MODULES = ["Anytree.Props.C05", "Anytree.Props.C05b"]
 NOT_COVERED = []
 RULE = ("every ordered tree shape up to N nodes (quick 5, thorough 7) with pre-order and shuffled labels, every "
         "start node, all five iterators with default arguments; plus seeded random shapes (chains, stars, combs, "
-        "random attachment) up to 12/40 nodes. Distinct = distinct (tree, start, kind); non-trivial = start "
+        "random attachment) up to 12/40 nodes; the iterator object consumed in pieces (for-loop left early then resumed, next() calls, "
+        "two iter() handles; an exhausted iterator must stay exhausted). Distinct = distinct (tree, start, kind); non-trivial = start "
         "subtree has >= 3 nodes.")
 KINDS = ["pre", "post", "level", "group", "zigzag"]
 
@@ -48,7 +53,17 @@ def generate(tier, rng):
                 for start in gen.tree_labels(t):
                     for k in KINDS:
                         yield {"fam": "iter", "tree": t, "start": start, "kind": k, "filter_out": [],
-                               "stop": [], "maxlevel": None, "defaults": True, "cls": rng.choice(["nm", "light", "eq"])}
+                               "stop": [], "maxlevel": None, "defaults": True, "cls": rng.choice(["nm", "light", "eq", "falsy"])}
+    # the iterator object as a one-pass stream: left early and resumed, explicit next(), two iter() handles
+    for n in range(1, 5 if tier == "quick" else 6):
+        for sh in gen.shapes(n):
+            t = gen.labelled(sh, rng, n >= 3)
+            for k in KINDS:
+                for mode in ("forbreak", "next", "twoiters"):
+                    for cut in (0, 1, 2, n):
+                        yield {"fam": "iter", "tree": t, "start": t[0], "kind": k, "filter_out": [], "stop": [],
+                               "maxlevel": None, "defaults": True, "cls": rng.choice(["nm", "light", "eq", "falsy"]),
+                               "consume": mode, "k": cut}
     nrand = 150 if tier == "quick" else 1500
     big = 12 if tier == "quick" else 40
     for _ in range(nrand):
@@ -57,8 +72,12 @@ def generate(tier, rng):
         labs = gen.tree_labels(t)
         for start in [t[0]] + rng.sample(labs, min(2, len(labs))):
             for k in KINDS:
-                yield {"fam": "iter", "tree": t, "start": start, "kind": k, "filter_out": [],
-                       "stop": [], "maxlevel": None, "defaults": rng.random() < 0.5, "cls": rng.choice(["nm", "light", "eq"])}
+                c = {"fam": "iter", "tree": t, "start": start, "kind": k, "filter_out": [],
+                     "stop": [], "maxlevel": None, "defaults": rng.random() < 0.5, "cls": rng.choice(["nm", "light", "eq", "falsy"])}
+                if rng.random() < 0.3:
+                    c["consume"] = rng.choice(["forbreak", "next", "twoiters"])
+                    c["k"] = rng.randrange(0, n + 1)
+                yield c
 
 
 def nontrivial(case):
